@@ -2,6 +2,8 @@
 
 package gtree
 
+import "context"
+
 func init() {
 	verifRegister("VerifC15Same", VerifC15Same)
 }
@@ -19,11 +21,13 @@ func repStr(c string, n int) string {
 // lemmas) is written in the canonical spelling and in an arbitrary member of the notation family (indent char
 // space/tab, unit 1..4, bullet per row, roots as # headings or not, optionally a blank / whitespace-only row at
 // any position when (verifN()/10)%10 != 0; first byte of every name symbolic when verifN() >= 100); the real parser and the real tree code run on both; both are accepted and
-// give byte-identical text output. n%10 = number of rows.
+// give byte-identical text output. n%10 = number of rows. verifN() >= 1000: the spelling goes through massive mode
+// (same per-root blocks, any order).
 func VerifC15Same() {
 	n := verifN() % 10
 	withBlank := (verifN()/10)%10 != 0
-	symNames := verifN() >= 100
+	symNames := (verifN()/100)%10 != 0
+	massive := verifN() >= 1000 // spelling B goes through the massive pipeline (splitter + one parser per block)
 	c := " "
 	if verifFlag("tab") {
 		c = "\t"
@@ -78,6 +82,16 @@ func VerifC15Same() {
 	}
 	verifContext("C15.same")
 	outA, errA := run(rowsA)
+	if massive {
+		w := newVerifWriter()
+		errB := OutputFromMarkdown(w, &verifReader{lines: rowsB}, WithMassive(context.Background()))
+		verifAssert(errA == nil, "C15.canon.nil")
+		verifAssert(errB == nil, "C15.spelling.nil/massive")
+		verifAssert(sameBlocks(outA, w.out), "C15.same/massive")
+		verifAssert(verifQuiesce() == 0, "C15.noleak")
+		verifReach("C15.end")
+		return
+	}
 	outB, errB := run(rowsB)
 	verifAssert(errA == nil, "C15.canon.nil")
 	verifAssert(errB == nil, "C15.spelling.nil")
